@@ -11,11 +11,11 @@ CHECKS = {
   "Static, partial. Decides for ALL inputs the structural clauses: every successful lookup result is serialize(estimate) with "
   "estimate.resolution == the resolution argument (world cell only for -1); the early return is dominated by containment(estimate, query point) > 0 "
   "for the very estimate returned; the fallback is the arg-max of the recorded (estimate, containment) pairs; one curve depth r-FIRST+1 in ij_to_s, "
-  "lattice scale, s_to_anchor and get_pentagon_vertices; containment is the exact sign of the edge cross product (threshold literally 0); probe estimates are de-duplicated by their serialized ID only (R6); shared: every longitude wrap moves by a full period (C19.A5); the inverse-projection pairing rules C15.S1/S3/S4 and the sector-reduced reflection azimuth C15.S6; no explicitly constructed error result of lonlat_to_cell / lonlat_to_estimate is reachable for latitude in [-90,90], finite longitude, resolution 0..29 (R7, interval analysis over exactly that domain). Does NOT decide that the probe search reaches the containing cell, the edge band, "
+  "lattice scale, s_to_anchor and get_pentagon_vertices; containment is the exact sign of the edge cross product (threshold literally 0); probe estimates are de-duplicated by their serialized ID only (R6); shared: every longitude wrap moves by a full period (C19.A5); the inverse-projection pairing rules C15.S1/S3/S4 and the sector-reduced reflection azimuth C15.S6; no explicitly constructed error result of lonlat_to_cell / lonlat_to_estimate is reachable for latitude in [-90,90], finite longitude, resolution 0..29 (R7, interval analysis over exactly that domain); every spiral index contributes its probe to the list and every probe is estimated - no probe is filtered by its coordinates (R8). Does NOT decide that the probe search reaches the containing cell, the edge band, "
   "periodicity or poles (numerical over a continuum)."),
  "C02": ("6/C02", "custom MIR dataflow rules (provenance, sibling dispatch comparison)",
   "Static, thin partial. Decides: centre = inverse projection on the cell's own face of the centroid of get_pentagon(decode(cell)); get_pentagon and the "
-  "containment test build geometry with the same constructors, thresholds and quintant; shared: C01.R1-R5/R7 (the lookup returns a cell of the asked resolution accepted by the exact containment test at the query point itself, and rejects no admissible point), C15.S1/S3/S4/S6 inverse-projection pairing. Does NOT decide the centre/interior round trip (numerical)."),
+  "containment test build geometry with the same constructors, thresholds and quintant; shared: C01.R1-R5/R7/R8 (the lookup returns a cell of the asked resolution accepted by the exact containment test at the query point itself, and rejects no admissible point), C15.S1/S3/S4/S6 inverse-projection pairing. Does NOT decide the centre/interior round trip (numerical)."),
  "C04": ("6/C04", "custom MIR dataflow rule + table predicate on compiler-evaluated constants",
   "Static, thin partial. Decides: boundary points are subdivided in the plane before unprojection (provenance of every inverse-projection argument) and the "
   "31 tabulated areas equal authalic area / cell count to 1e-12; shared: C15.S1/S3/S4/S6 (matching spherical/squashed triangle, angle helper continuous at its threshold, reflection test on the sector-reduced azimuth). Does NOT decide that cells have equal area (needs C16, numerical)."),
@@ -33,7 +33,7 @@ CHECKS = {
   "distinctness / unique parent / exact cover as theorems."),
  "C08": ("6/C08", "custom MIR dataflow rules (must-pass-through, guard, sibling agreement)",
   "Static, partial. Decides: dedup+total sort dominate the merge passes and the input is not re-read; a parent is pushed only under the all-siblings flag whose true value survives the "
-  "first-child gate and the complete stride comparison loop; run length table {4,12,5} = cursor increment; other cells copied; shared: C20.L3 (the stride compact steps by is the sibling distance of the layout). Does NOT decide covered-set equality."),
+  "first-child gate and the complete stride comparison loop; run length table {4,12,5} = cursor increment; other cells copied; every pass result goes through a total sort followed by dedup before the next scan or the return (K5: a merged parent may already be present and does not keep the ID order); shared: C20.L3 (the stride compact steps by is the sibling distance of the layout). Does NOT decide covered-set equality."),
  "C09": ("6/C09", "custom MIR dataflow rules (append-only assembly, per-element provenance, guard order)",
   "Static, partial. Decides: output is append-only inside one forward loop over the input; iteration i expands cells[i] to Some(target) and uses the resolution recorded for index i; the "
   "finer-than-target test runs for every element before the output exists; the fan-out table agrees with the hierarchy over all 746 (resolution, target) pairs; the target is refused up front exactly outside -1..=29 (U5, finite evaluation of the target-only guards); loops are read through the k-th item of the sequence they walk (for / while / enumerate / zip / aligned local vectors alike); shared: C07.T2/T3 (children fan-out and bit placement). Does NOT decide the descendant arithmetic."),
@@ -53,7 +53,7 @@ CHECKS = {
   "cell; fallible entry points return Result<_, String>. Quick uses 5 assumptions that the thorough tier (case splits per decoded resolution) must discharge. Float wrap loops (`while x - c > A { x -= B }`) carry a TERM obligation: the value entering and the reference are bounded so that every round changes x. Thorough also compares arithmetic/shift/index sites per function between the overflow-checked and the release-like extraction. Does NOT decide float-geometry "
   "panics or termination beyond 'no wrapped-negative loop bound / allocation size'."),
  "C15": ("6/C15", "custom MIR sibling-agreement rules",
-  "Static, partial. Decides: forward and inverse select (triangle index, reflect) identically from one polar value, unsquashed face triangle, own-face spherical triangle, correct slots and "
+  "Static, partial. Decides: forward and inverse select (triangle index, reflect) identically from one polar value (the reflection flag must itself be a function of that polar value), unsquashed face triangle, own-face spherical triangle, correct slots and "
   "un-rotated point; inverse_quat/-angle in, quat/+angle out and in the CRS; inverse_quat = conjugate(quat); squashed only in compute_spherical_triangle; the two formulas of the threshold-guarded acos helper agree to 1e-13 at the threshold the code names (S4: evaluates two extracted closed forms at one constant, not the library); the barycentric map pairs like components of the triangle corners (S5); the azimuth handed to the planar conversion in the reflection test lies within +-PI/5 for every input (S6, float interval analysis incl. x - round(x)); which triangle a get_face_triangle call fetches is decided by finite evaluation of its selector parameters (bools or a field-less enum). Does NOT decide round-trip error bounds."),
  "C17": ("6/C17", "table predicates + MIR sibling/provenance rules on the two digit walks",
   "Static, partial. Decides: shift tables are permutations; each inverse table is the index/value swap of the forward table it is paired with; identical orientation flag sets on both "
